@@ -470,8 +470,21 @@ def method_call_lowering(ctx: Ctx, pid: str):
         else:
             ctx.bad(rule + ".paths", fn.site, cons, found=f"configuration {[(tstr(t), v) for t, v in ex.config]} neither records nor re-enters",
                     required="every non-raising path records the call")
+    # the plain (unconditional) recording path may be taken only for the constant-1 enable
+    rec_reach = fn.reach(Effect, lambda e: pmatch("Q_c.method_calls[self].append(Q_x)", e.call) is not None)
+    is_const = A(("call", ("n", "isinstance"), (enable_call, ("n", "Const")), ()))
+    val_one = A(pat_eq(("a", enable_call, "value"), ("c", 1)))
+    cex = implies(rec_reach, f_and(is_const, val_one))
+    ctx.check(cex is None, f"{pid}.enable-call-lowering", fn.site, "Method.__call__.unconditional-path", found=fstr(rec_reach)[:300] + ("" if cex is None else f"  (reachable with {vstr(cex)})"),
+              required="a call is recorded as unconditional only if enable_call is the constant 1; every other enable (signals, Const(0)) goes through m.If(enable_call)")
     ctx.check(n_plain >= 1 and n_cond >= 1, rule + ".paths", fn.site, "Method.__call__.paths", found=f"{n_plain} recording path(s), {n_cond} conditional re-entry path(s)",
               required="plain calls are recorded; conditional calls are lowered to a call under If")
+
+
+def pat_eq(a: Term, b: Term) -> Term:
+    from ..term import mk_op
+
+    return mk_op("==", a, b)
 
 
 def body_wrappers(ctx: Ctx, pid: str):
